@@ -2,7 +2,7 @@
    the 200 ms during which output is dropped, the upload command, the 3 s bookkeeping) and what
    is left behind when it is called off or runs to its end; typed input while a transfer owns
    the streams; a redisplayed trigger (composition with the detector model of C06). *)
-From Trzsz Require Import Base.Bytes Gen.Consts Model.Filter Proofs.Filter.
+From Trzsz Require Import Base.Bytes Gen.Consts Model.Filter Model.FilterDet Proofs.Filter.
 From Trzsz Require Model.Detector Proofs.Detector.
 Local Open Scope N_scope.
 
@@ -88,6 +88,130 @@ Section FilterDragProofs.
     - destruct (is_stop_key c && prompts s); injection Hs as E1 E2; rewrite <- E1, <- E2;
         destruct s; cbn in *; repeat split; auto.
   Qed.
+  (* ---------------------------------------------------------------------------------- *)
+  (* the 200 ms after the client's own ctrl-C (drag upload or UploadFiles API): detection   *)
+  (* comes BEFORE the drop                                                                  *)
+
+  Notation out_step := (out_step dstate trigger detect trig_prompts zmodem_detect zstate zm_init zm_handle msg_on msg_off o).
+  Notation out_pump := (out_pump dstate trigger detect trig_prompts zmodem_detect zstate zm_init zm_handle zm_busy zm_stop drag_detect msg_on msg_off is_stop_key o).
+  Notation step := (step dstate trigger detect trig_prompts zmodem_detect zstate zm_init zm_handle zm_busy zm_stop drag_detect msg_on msg_off is_stop_key o).
+  Notation trace_fires := (trace_fires dstate zstate o).
+
+  (* what is shown of the chunks of the window, and how many transfers they start: exactly the
+     chunks on which the detector fires, as rewritten by the detector *)
+  Notation window_shown := (FilterDet.window_shown dstate trigger detect).
+
+  Definition in_window (s : state) : Prop :=
+    transfer s = false /\ zmodem s = None /\ interrupting s = true.
+
+  Lemma out_step_window : forall (s : state) c b t d' s' ob,
+    in_window s -> trace_fires s c = false -> detect (det s) c = ((b, t), d') ->
+    out_step s c = (s', ob) ->
+    term_writes ob = (match t with Some _ => [b] | None => [] end) /\ server_writes ob = [] /\
+    handlers s' = handlers s ++ (match t with Some _ => [HChoosing] | None => [] end) /\
+    in_window s' /\ det s' = d' /\ trace_on s' = trace_on s /\
+    drag_procs s' = drag_procs s /\ drag_has_dir s' = drag_has_dir s /\ skip_cmd s' = skip_cmd s /\
+    dragging s' = dragging s /\ drag_files s' = drag_files s /\ prompt s' = prompt s /\ held s' = held s.
+  Proof.
+    intros s c b t d' s' ob (Ht & Hz & Hi) Htr Hd Hs.
+    unfold Filter.out_step in Hs. rewrite Ht in Hs.
+    assert (Htl : Filter.trace_log dstate zstate msg_on msg_off o s c = (c, s)).
+    { unfold Filter.trace_log. unfold Filter.trace_fires in Htr.
+      destruct (o_trace o); cbn in Htr; auto. destruct (trace_on s); rewrite Htr; reflexivity. }
+    rewrite Htl in Hs.
+    assert (Hzm : Filter.out_zmodem dstate zstate zm_handle o s c = inr (s, [])).
+    { unfold Filter.out_zmodem. rewrite Hz. destruct (o_zmodem o); reflexivity. }
+    rewrite Hzm in Hs. unfold Filter.out_detect in Hs.
+    destruct (if o_osc52 o then detect_osc52 (osc s) c else (osc s, [])) as [q cl].
+    assert (Hdet : det (set_osc q s) = det s) by (destruct s; reflexivity).
+    rewrite Hdet, Hd in Hs.
+    destruct t as [t|].
+    - inversion Hs; subst s' ob; clear Hs. cbn [app].
+      rewrite term_writes_app, server_writes_app, term_writes_clips, server_writes_clips.
+      unfold in_window. destruct s; cbn in *. repeat split; auto.
+    - unfold Filter.out_forward in Hs.
+      assert (Hi' : interrupting (set_det d' (set_osc q s)) = true) by (destruct s; cbn in *; auto).
+      rewrite Hi' in Hs. inversion Hs; subst s' ob; clear Hs. cbn [app].
+      rewrite term_writes_clips, server_writes_clips, app_nil_r.
+      unfold in_window. destruct s; cbn in *. repeat split; auto.
+  Qed.
+
+  (* every list of chunks arriving inside the window *)
+  Theorem window_out : forall cs (s s' : state) ob,
+    in_window s -> Forall (fun c => trace_fires s c = false) cs ->
+    out_pump s cs = (s', ob) ->
+    term_writes ob = fst (window_shown (det s) cs) /\ server_writes ob = [] /\
+    handlers s' = handlers s ++ repeat HChoosing (snd (window_shown (det s) cs)) /\
+    in_window s' /\
+    drag_procs s' = drag_procs s /\ drag_has_dir s' = drag_has_dir s /\ skip_cmd s' = skip_cmd s /\
+    dragging s' = dragging s /\ drag_files s' = drag_files s /\ prompt s' = prompt s /\ held s' = held s.
+  Proof.
+    unfold Filter.out_pump.
+    induction cs as [|c cs IH]; intros s s' ob Hw Hq Hr.
+    - cbn in Hr. inversion Hr; subst. cbn. rewrite app_nil_r. repeat split; auto; apply Hw.
+    - cbn [map Filter.run] in Hr.
+      destruct (step s (EvOut c)) as [s1 o1] eqn:Hs1. cbn [Filter.step] in Hs1.
+      destruct (Filter.run dstate trigger detect trig_prompts zmodem_detect zstate zm_init zm_handle zm_busy zm_stop
+                  drag_detect msg_on msg_off is_stop_key o s1 (map EvOut cs)) as [s2 o2] eqn:Hr2.
+      inversion Hr; subst s' ob; clear Hr.
+      inversion Hq as [|c0 cs0 Hq1 Hq2]; subst.
+      destruct (detect (det s) c) as [[b t] d'] eqn:Hd.
+      destruct (out_step_window s c b t d' s1 o1 Hw Hq1 Hd Hs1)
+        as (T1 & S1 & H1 & W1 & D1 & Tr1 & P1 & A1 & K1 & G1 & F1 & Pr1 & Hl1).
+      assert (Hq2' : Forall (fun c => trace_fires s1 c = false) cs).
+      { eapply Forall_impl; [|exact Hq2]. intros a Ha. unfold Filter.trace_fires in *. rewrite Tr1. exact Ha. }
+      destruct (IH s1 s2 o2 W1 Hq2' Hr2) as (T2 & S2 & H2 & W2 & P2 & A2 & K2 & G2 & F2 & Pr2 & Hl2).
+      cbn [window_shown]. rewrite Hd. rewrite D1 in *.
+      destruct (window_shown d' cs) as [sh n]. cbn [fst snd] in *.
+      rewrite term_writes_app, server_writes_app, T1, S1, T2, S2, H2, H1.
+      repeat split; try congruence; try apply W2.
+      + destruct t; reflexivity.
+      + destruct t; cbn [repeat app snd]; rewrite <- ?app_assoc; reflexivity.
+  Qed.
+
+  (* the window ends: the upload goroutine clears the flag and types its command *)
+  Theorem window_ends : forall (s s' : state) ob rest,
+    drag_procs s = DInterrupt :: rest ->
+    step s (EvDrag 0) = (s', ob) ->
+    ob = [ToServer (drag_command dstate zstate o s ++ drag_cmd_end)] /\
+    interrupting s' = false /\ skip_cmd s' = true /\ cur_cmd s' = Some (drag_command dstate zstate o s) /\
+    drag_procs s' = DCmd :: rest /\ handlers s' = handlers s /\ transfer s' = transfer s.
+  Proof.
+    intros s s' ob rest Hp Hs. cbn [Filter.step] in Hs. unfold Filter.drag_step in Hs.
+    rewrite Hp in Hs. cbn [nth_error] in Hs. inversion Hs; subst; clear Hs.
+    destruct s; cbn in *. subst. repeat split; reflexivity.
+  Qed.
+
+  (* how the window opens: a drop (after its 300 ms), or the UploadFiles API (at once) *)
+  Theorem window_opens_drag : forall (s : state) c1 fs hd s' ob,
+    idle s = true -> detect_on s = true -> drag_files s = None ->
+    d_files (drag_detect c1) = Some (fs, hd) ->
+    run s [EvIn c1; EvDrag 0] = (s', ob) ->
+    ob = [ToServer [drag_interrupt_byte]] /\ in_window s' /\ drag_procs s' = [DInterrupt] /\
+    handlers s' = [] /\ det s' = det s /\ trace_on s' = trace_on s.
+  Proof.
+    intros s c1 fs hd s' ob Hi Hon Hdf Hf1 Hr.
+    idle_fields Hi.
+    destruct s as [tr zm pr prs ton intr sk cc os don dg dhd dfs hld dt dps hs]; cbn in *; subst.
+    unfold Filter.in_step, Filter.drag_verdict, add_drag, Filter.drag_step in Hr.
+    destruct (o_zmodem o); cbn in Hr; rewrite ?andb_false_r, Hf1 in Hr;
+      lazy beta iota zeta delta -[app] in Hr; inversion Hr; subst; clear Hr;
+      unfold in_window; cbn; repeat split; reflexivity.
+  Qed.
+
+  Theorem window_opens_api : forall (s : state) fs hd s' ob,
+    idle s = true -> dragging s = false -> drag_files s = None ->
+    run s [EvApiUpload fs hd; EvDrag 0] = (s', ob) ->
+    ob = [ToServer [drag_interrupt_byte]] /\ in_window s' /\ drag_procs s' = [DInterrupt] /\
+    handlers s' = [] /\ det s' = det s /\ trace_on s' = trace_on s.
+  Proof.
+    intros s fs hd s' ob Hi Hdg Hdf Hr.
+    idle_fields Hi.
+    destruct s as [tr zm pr prs ton intr sk cc os don dg dhd dfs hld dt dps hs]; cbn in *; subst.
+    unfold add_drag, Filter.drag_step in Hr.
+    lazy beta iota zeta delta -[app] in Hr. inversion Hr; subst; clear Hr.
+    unfold in_window; cbn; repeat split; reflexivity.
+  Qed.
 End FilterDragProofs.
 
 (* ------------------------------------------------------------------------------------ *)
@@ -97,12 +221,6 @@ End FilterDragProofs.
 (* tunnel = false.                                                                           *)
 
 Import Trzsz.Model.Detector.
-
-Definition c05_client_det (m : idmap) : det := {| d_relay := false; d_tmux := false; d_map := m |}.
-
-Definition c05_client_detect (winenv : bool) (m : idmap) (buf : list N)
-  : (list N * option Trzsz.Model.Detector.trigger) * idmap :=
-  let '(out, t, d') := Trzsz.Model.Detector.detect winenv (c05_client_det m) false buf in ((out, t), d_map d').
 
 (* C06_silent, in the shape the filter theorems need *)
 Lemma c05_client_detect_silent : forall winenv m c c' m',
